@@ -163,13 +163,13 @@ class ConstEval:
           return Fraction(*vals)
         except Exception as ex:
           raise NotConst(str(ex))
-      if fn in ("int", "float", "str", "len", "bytes", "bool", "abs", "min", "max") and not e.keywords:
+      if fn in ("int", "float", "str", "len", "bytes", "bool", "abs", "min", "max", "round") and not e.keywords:
         vals = [self._ev(m, a, cls, env) for a in args]
         if any(isinstance(v, (Sym, EnumMember)) for v in vals):
           raise NotConst("symbolic builtin")
         try:
           return {"int": int, "float": float, "str": str, "len": len, "bytes": bytes, "bool": bool,
-                  "abs": abs, "min": min, "max": max}[fn](*vals)
+                  "abs": abs, "min": min, "max": max, "round": round}[fn](*vals)
         except Exception as ex:
           raise NotConst(str(ex))
       if isinstance(e.func, ast.Attribute) and e.func.attr in ("join", "lower", "upper", "strip", "get") and not e.keywords:
